@@ -282,8 +282,15 @@ func dischargeFunc(sv *Solver, fr *FuncResult, par int) map[string]*oblStatus {
 				}
 			default:
 				st.Unknown++
-				if !o.Reach && st.FailInst == nil {
-					st.FailInst, st.FailRes = o, r
+				if !o.Reach {
+					switch {
+					case st.FailInst == nil:
+						st.FailInst, st.FailRes = o, r
+					case st.FailRes != nil && st.FailRes.Model == nil && r.Model != nil:
+						st.FailInst, st.FailRes = o, r // an undecided instance that at least has a candidate model
+					case r.Model != nil && len(st.MoreInst) < 5:
+						st.MoreInst, st.MoreRes = append(st.MoreInst, o), append(st.MoreRes, r)
+					}
 				}
 			}
 		}()
